@@ -305,17 +305,25 @@ func (e *env) v1Witness(cs consensus.State, orig types.Block, kinds []string) {
 				})
 			}
 		}
-		// bytes the signer never produced appended to a signature: the signature object was corrupted
-		variant("signature-bytes-appended", true, func(tt *types.Transaction) bool {
+		// Observed, not judged (audit round 2 reported both; see DESIGN 9.3/9.6): bytes appended after the 64 signature
+		// bytes, and index lists filled in beside the whole-transaction flag, are parts of the signature object that no
+		// rule reads - the 64-byte signature still verifies over the same hash, so what is authorized is unchanged.
+		observe := func(name string, f func(tt *types.Transaction) bool) {
+			blk := chaingen.CloneBlock(orig)
+			if f(&blk.Transactions[i]) {
+				if err, _ := c.TryVariant(&blk); !chaingen.IsSealFailure(err) {
+					e.b.Count(fmt.Sprintf("observed:%s-accepted=%v", name, err == nil), 1)
+				}
+			}
+		}
+		observe("v1-signature-bytes-appended-after-the-64th", func(tt *types.Transaction) bool {
 			if sigUnderUnknownAlg(tt, 0) || len(tt.Signatures[0].Signature) != 64 {
 				return false
 			}
 			tt.Signatures[0].Signature = append(append([]byte(nil), tt.Signatures[0].Signature...), []byte("these bytes were never produced by the signer")...)
 			return true
 		})
-		// a whole-transaction signature whose other covered-field lists are filled in afterwards (with indices of
-		// fields that do not exist): part of the signature object nobody signed
-		variant("covered-field-lists-filled-in-beside-the-whole-transaction-flag", true, func(tt *types.Transaction) bool {
+		observe("v1-covered-field-lists-beside-the-whole-transaction-flag", func(tt *types.Transaction) bool {
 			cf := &tt.Signatures[0].CoveredFields
 			if sigUnderUnknownAlg(tt, 0) || !cf.WholeTransaction || len(cf.SiacoinOutputs)+len(cf.MinerFees)+len(cf.ArbitraryData) != 0 {
 				return false
